@@ -33,6 +33,8 @@ pub struct GenCfg
     pub copy_rules : bool,      // mostly single-source, single-target rules with empty salt ("cp")
     pub edits_only : bool,      // user operations are source edits/reverts only
     pub fail_rate : u64,        // per-rule chance (out of 24) of a failing construct when `failing`
+    pub moves : bool,           // user `mv` onto a target (keeps the old mtime); only sound to demand
+                                // anything about it when distinct writes carry distinct mtimes
 }
 
 impl GenCfg
@@ -42,7 +44,7 @@ impl GenCfg
         GenCfg
         {
             max_rules : if thorough { 14 } else { 8 },
-            max_ops : if thorough { 12 } else { 6 },
+            max_ops : if thorough { 12 } else { 8 },
             min_ops : 1,
             failing : true,
             missing_leaves : true,
@@ -62,6 +64,7 @@ impl GenCfg
             copy_rules : false,
             edits_only : false,
             fail_rate : 4,
+            moves : true,
         }
     }
 }
@@ -535,10 +538,23 @@ impl Gen
                     else { format!("tampered{}", self.rng.below(3)).into_bytes() };
             ops.push(Op::Write{ path : t, content : c });
         }
-        else if roll < 70 && self.cfg.user_damage && targets.len() > 0
+        else if roll < 66 && self.cfg.user_damage && targets.len() > 0
         {
             let t = self.rng.pick(&targets).clone();
             ops.push(Op::Delete{ path : t });
+        }
+        else if roll < 70 && self.cfg.user_damage && targets.len() > 0 && self.cfg.moves && self.cfg.clock == Some(ClockMode::Distinct)
+        {
+            // `mv`: another target, a source or the bystander lands on a target path with its old mtime
+            let to = self.rng.pick(&targets).clone();
+            let mut cands = targets.clone();
+            cands.extend(self.leaves.iter().cloned());
+            let from = self.rng.pick(&cands).clone();
+            if from != to
+            {
+                if self.leaves.contains(&from) { self.files.remove(&from); }
+                ops.push(Op::Move{ from : from, to : to });
+            }
         }
         else if roll < 76 && self.cfg.user_damage
         {
